@@ -22,7 +22,13 @@ var MaxInt = sdk.NewIntFromBigInt(new(big.Int).Sub(new(big.Int).Lsh(big.NewInt(1
 
 // amountAround draws an amount around a balance: 0, 1, balance, balance+1, half, small, 2^255-1.
 func amountAround(t *rapid.T, bal sdk.Int) (sdk.Int, string) {
-	switch rapid.SampledFrom([]string{"small", "small", "small", "small", "small", "small", "one", "bal", "bal+1", "half", "huge", "zero"}).Draw(t, "amountClass") {
+	switch rapid.SampledFrom([]string{"small", "small", "small", "small", "small", "small", "one", "bal", "bal+1", "half", "huge", "zero", "1e18", "int64", "uint64"}).Draw(t, "amountClass") {
+	case "1e18":
+		return sdk.NewIntWithDecimal(int64(rapid.IntRange(1, 9).Draw(t, "coins")), 18), "1e18-scale"
+	case "int64":
+		return sdk.NewIntFromUint64(1 << 63).AddRaw(int64(rapid.IntRange(-2, 2).Draw(t, "aroundInt64"))), "around-2^63"
+	case "uint64":
+		return sdk.NewIntFromBigInt(new(big.Int).Lsh(big.NewInt(1), 64)).AddRaw(int64(rapid.IntRange(-2, 2).Draw(t, "aroundUint64"))), "around-2^64"
 	case "one":
 		return sdk.OneInt(), "one"
 	case "bal":
